@@ -38,9 +38,12 @@ def main():
     ctx.notes += gen_src.generate(ctx)
     ok, log = common.coq_make()
     if not ok:
-        # a generated table no longer type-checks or a lemma over it no longer computes:
-        # find which files failed; the property's own obligations are examined below
-        ctx.notes.append("make reported errors: " + log[-1500:])
+        # a generated table or definition no longer type-checks, or a lemma over it no longer
+        # goes through: record which files failed and why (the property's own obligations are
+        # examined below), and drop their stale compiled files
+        ctx.make_errors = common.make_failures(log)
+        ctx.notes.append("make reported errors: " + "; ".join(
+            "%s: %s" % (f, e[:300]) for f, e in ctx.make_errors.items())[:3000])
     # 2. the property's theorems
     extra = getattr(mod, "EXTRA_OBLIGATION_FILES", ())
     obligations, discharged, assumptions, names = common.check_props(ctx, extra)
